@@ -224,6 +224,49 @@ def late_metadata(seed=0):
     return fails
 
 
+def relative_folder(seed=0):
+    """A ModelSaver given a relative folder, and a working directory that changes between its construction and the run
+    (and during the run): every file is written to the folder the path named when it was given, and load() of those
+    files gives back the parameters of the epoch."""
+    from qucumber.callbacks import ModelSaver, LambdaCallback
+    rng = np.random.default_rng(seed)
+    torch.manual_seed(seed)
+    tmp = os.path.realpath(tempfile.mkdtemp(prefix="vf_c17r_"))
+    here = os.getcwd()
+    fails = []
+    try:
+        a, b, c = (os.path.join(tmp, x) for x in "ABC")
+        for x in (a, b, c):
+            os.mkdir(x)
+        os.chdir(a)
+        sv = ModelSaver(1, "ckpt", "m_{}.pt", save_initial=True)
+        os.chdir(b)
+        pw = C.make_state("positive", 2, 2)
+        data = torch.tensor(rng.integers(0, 2, size=(4, 2)), dtype=torch.double)
+        snaps = {}
+        mover = LambdaCallback(on_epoch_start=lambda s, e: os.chdir(c) if e == 2 else None,
+                               on_epoch_end=lambda s, e: snaps.__setitem__(e, s.rbm_am.weights.detach().clone()))
+        pw.fit(data, epochs=2, pos_batch_size=2, neg_batch_size=2, k=1, lr=0.05, callbacks=[mover, sv])
+        os.chdir(here)
+        got = sorted(os.listdir(os.path.join(a, "ckpt"))) if os.path.isdir(os.path.join(a, "ckpt")) else None
+        if got != ["m_1.pt", "m_2.pt", "m_initial.pt"]:
+            fails.append(("relative folder: the files are not in the folder the path named when the ModelSaver was built", got))
+        stray = [x for x in (b, c) if os.listdir(x)]
+        if stray:
+            fails.append(("relative folder: files were written under a later working directory", [os.path.relpath(x, tmp) for x in stray]))
+        if not fails:
+            for e in (1, 2):
+                w = torch.load(os.path.join(a, "ckpt", "m_%d.pt" % e), weights_only=False)["rbm_am"]["weights"]
+                if not torch.equal(w, snaps[e]):
+                    fails.append(("relative folder: m_%d.pt does not hold the parameters at the end of epoch %d" % (e, e), None))
+    except Exception as e:                           # noqa: BLE001
+        fails.append(("relative folder: %r" % (e,), None))
+    finally:
+        os.chdir(here)
+        shutil.rmtree(tmp, ignore_errors=True)
+    return fails
+
+
 def clashing_names(seed=0):
     """Metrics / observables whose names are also attributes of the evaluator: subscripting gives the recorded values."""
     from qucumber.callbacks import MetricEvaluator, ObservableEvaluator
@@ -318,6 +361,10 @@ def native_check(quick=True):
     n += 1
     if f:
         fails.append((("metadata dictionary filled after construction",), f[:2]))
+    f = relative_folder()
+    n += 1
+    if f:
+        fails.append((("relative folder, working directory changed",), f[:2]))
     f = failed_save()
     n += 1
     if f:
